@@ -26,25 +26,6 @@ def clStep (s : NodeSt) : Cmd → NodeSt
   | .assignCompactor id => (applyAssignCompactor s id).1
   | _ => s
 
-/-- Carve-out of the role theorems: the command classes on which the real FSM breaks the role
-clauses are excluded.
-* a node record written by AddNode/UpdateNode carries `writer_state = "primary"` exactly when its
-  id is the recorded primary writer (excludes: rejoin of the primary with an empty writer_state,
-  payloads that mark a second node primary);
-* RemoveNode does not remove the recorded primary writer;
-* PromoteWriter names a registered node (or is rejected up front for an empty id). -/
-def roleSafe (s : NodeSt) : Cmd → Bool
-  | .addNode n => decide (n.wstate = "primary" ↔ (n.id = s.pw ∧ s.pw ≠ ""))
-  | .updateNode n => decide (n.wstate = "primary" ↔ (n.id = s.pw ∧ s.pw ≠ ""))
-  | .removeNode id => decide (¬ (id = s.pw ∧ s.pw ≠ ""))
-  | .promote id _ => decide (id = "" ∨ s.nodes.has id = true)
-  | _ => true
-
-def roleSafeRun (s : State) : List Ev → Bool
-  | [] => true
-  | .cmd i c :: es => roleSafe s.cl c && roleSafeRun (apply s i c).1 es
-  | .restore :: es => roleSafeRun (restore (snapshot s)) es
-
 /-! RBAC parents -/
 
 def ParentsExist (a : AuthSt) : Prop :=
